@@ -308,6 +308,30 @@ impl Planner {
                 }
             }
         }
+        // B8: one known-euclidean witness per entry of the invariant table
+        // (cover of a cover of a literal): every space-group type gets a yes run
+        for (e, chain) in corpus.sg_witnesses.iter() {
+            let reps = if thorough { 6 } else { 2 };
+            let parent = corpus.k0.iter().find(|k| k.text == e.text).map(|k| k.id.clone());
+            for r in 0..reps {
+                let (mut s, mut rng) = self.base_spec(&e.id, &e.text, Op::IsEuclidean);
+                s.parent = parent.clone();
+                s.xf.push(Xf::Cover { k: chain[0], j: chain[1] });
+                s.xf.push(Xf::Cover { k: chain[2], j: chain[3] });
+                if r > 0 {
+                    if r % 2 == 0 {
+                        s.xf.push(Xf::Dual);
+                    }
+                    s.xf.push(Xf::Shuffle(rng.next_u64()));
+                }
+                s.repr = Self::c17_repr(&mut rng);
+                s.known_euclidean = true;
+                s.want_inv = r == 0;
+                s.deep = r == 0 && s.idx % 4 == 0;
+                self.perturb(&mut s, &mut rng, true);
+                specs.push(s);
+            }
+        }
         // B5: finite-group symbols (expected "no" by the invariant filter)
         for e in corpus.finite.iter() {
             for _ in 0..8 {
@@ -499,6 +523,13 @@ impl Planner {
                 self.perturb(&mut s, &mut rng, false);
                 specs.push(s);
             }
+        }
+        // B7: pseudo-toroidal covers of the space-group witnesses (tori obtained
+        // through every point group / lattice type)
+        for (e, chain) in corpus.sg_witnesses.iter() {
+            let pre = vec![Xf::Cover { k: chain[0], j: chain[1] }, Xf::Cover { k: chain[2], j: chain[3] }];
+            let (cs, keys) = if thorough { (6, 1) } else { (1, 1) };
+            self.c16_block(&mut specs, &e.id, &e.text, &pre, 1, cs, keys, Expect::Torus, true);
         }
         // B6: systematic single deviations (seam S): option j at decision i,
         // natural everywhere else, for the first decisions of the corpus inputs
